@@ -13,6 +13,9 @@ Ops (JSON):
   {"op":"dump", "cls": name, "expr": <python expression building the instance in the family namespace>,
                 "via": "asdict"|"method"|"to_json"|"list_to_json"|"yaml"|"toml", "drop_keys": [keys left out of the recorded dict, at any depth]}
   {"op":"src", "src": <python source>, "defines": [names], "requires": [names]}   free-form definitions (subclasses, mixins, hooks)
+        optional "into": name              the source is executed in the module in which the class of that name was defined ("further
+                                           down the same module": a class that earlier annotations refer to by forward reference, or a
+                                           decorator applied to a class after the fact) instead of a module of its own
   {"op":"dumpnew", ...}  as dump (kept distinct for statistics: a novel value subtype)
 """
 from __future__ import annotations
@@ -67,6 +70,7 @@ class World:
     def __init__(self):
         self.ns = {}
         self.n_mod = 0
+        self.home = {}          # name -> the module object its (latest) definition was executed in
         exec(compile(model.PRELUDE + 'from harness.subtypes import *\nfrom datetime import timezone\n', '<hist-prelude>', 'exec', dont_inherit=True), self.ns)
 
     def do(self, op):
@@ -80,7 +84,7 @@ class World:
                 self._exec(src)
                 return ['defined']
             if k == 'src':
-                self._exec(op['src'])
+                self._exec(op['src'], op.get('into'))
                 return ['defined']
             if k == 'bind':
                 cls = self.ns[op['cls']]
@@ -145,16 +149,30 @@ class World:
                 traceback.print_exc()
             return _err(e)
 
-    def _exec(self, src):
-        self.n_mod += 1
-        name = f'dwv_hist_{os.getpid()}_{self.n_mod}'
-        mod = types.ModuleType(name)
-        mod.__dict__.update(self.ns)
-        sys.modules[name] = mod
+    def _exec(self, src, into=None):
+        if into:
+            # "further down the module of class `into`": the names of that module are in scope, and what is defined now is visible
+            # where the library resolves the forward references of `into` (sys.modules[into.__module__])
+            mod = self.home[into]
+            name = mod.__dict__['__name__']
+        else:
+            self.n_mod += 1
+            name = f'dwv_hist_{os.getpid()}_{self.n_mod}'
+            mod = types.ModuleType(name)
+            mod.__dict__.update(self.ns)
+            sys.modules[name] = mod
+        before = dict(mod.__dict__)
         exec(compile(src, f'<{name}>', 'exec', dont_inherit=True), mod.__dict__)
         for k, v in mod.__dict__.items():
             if getattr(v, '__module__', None) == name or k not in self.ns:
                 self.ns[k] = v
+            if k not in before or before[k] is not v:
+                self.home[k] = mod
+                if into:
+                    self.ns[k] = v
+                    seen_by_library = sys.modules.get(getattr(self.ns[into], '__module__', None))
+                    if seen_by_library is not None and seen_by_library is not mod:
+                        seen_by_library.__dict__[k] = v
 
 
 def _child(ops, w):
